@@ -556,7 +556,7 @@ func runTx(c *Case) (string, error) {
 		for _, md := range mr.MatchedDatas() {
 			mds = append(mds, fmt.Sprintf("OMD %s %s %s %s %s", vh.HxS(md.Variable().Name()), vh.HxS(md.Key()), vh.HxS(md.Value()), vh.HxS(md.Message()), vh.HxS(md.Data())))
 		}
-		mrs = append(mrs, fmt.Sprintf("OMR %s %s %s %s", vh.Z(int64(mr.Rule().ID())), vh.HxS(mr.Message()), vh.HxS(mr.Data()), vh.List(mds)))
+		mrs = append(mrs, fmt.Sprintf("OMR %s %s %s %s %s", vh.Z(int64(mr.Rule().ID())), vh.Z(int64(mr.Rule().Severity().Int())), vh.HxS(mr.Message()), vh.HxS(mr.Data()), vh.List(mds)))
 		c.ObsMatched = append(c.ObsMatched, mr.Rule().ID())
 	}
 	c.ObsTX, c.ObsHS, c.ObsInt = txm, hs, intr
